@@ -460,7 +460,7 @@ func replayMain(path string, big bool) {
 
 // ---- bounds documented by the code ----
 
-// ccittBound is the cap FilterCCITTFax.Decode documents: at most
+// ccittBound is the cap FilterCCITTFax.toParams documents: at most
 // MaxImageHeight rows and MaxImagePixels pixels (never fewer than one row).
 func ccittBound(cols int64) int64 {
 	if cols < 1 {
